@@ -43,7 +43,8 @@ type canonIn struct {
 	Seq     []gJ      `json:"seq"`    // reuse: graphs pushed through one storage
 	SeqCls  [][][]int `json:"seqcls"` // reuse: vertex classes per graph of the sequence (nil entries = none)
 	Cap     int       `json:"cap"`
-	Known   [][]int   `json:"known"` // full: automorphisms of g known by construction (a[v] = image of v)
+	Known   [][]int   `json:"known"` // full, wb: automorphisms of g known by construction (a[v] = image of v)
+	Order   int       `json:"order"` // wb with Known: the order of the group they generate, predicted by the construction
 }
 
 type wbEv struct {
@@ -62,20 +63,36 @@ func canonWB(in canonIn) tr.E {
 	}
 	evs := []wbEv{}
 	perm := []int{}
+	inv := make([]int, len(pi))
+	for i, v := range pi {
+		inv[v] = i
+	}
+	known := [][]int{} // in the labelling of the relabelled graph: new vertex i is old pi[i]
+	for _, a := range in.Known {
+		b := make([]int, len(pi))
+		for i := range pi {
+			b[i] = inv[a[pi[i]]]
+		}
+		known = append(known, b)
+	}
+	maxEv := 4000
+	if len(known) > 0 {
+		maxEv = 15000
+	}
 	res := obs.Safe(func() {
 		h := relabelled(in.Rep, in.G, pi)
 		graph.VerifCanonTracer = func(ev string, a, b int, s, t []int) {
-			if len(evs) < 4000 {
+			if len(evs) < maxEv {
 				evs = append(evs, wbEv{T: ev, A: a, B: b, S: cp(s), U: cp(t)})
 			}
 		}
 		defer func() { graph.VerifCanonTracer = nil }()
 		perm = cp(graph.CanonicalIsomorph(h))
 	})
-	if len(evs) >= 4000 {
+	if len(evs) >= maxEv {
 		res = "HARNESS: more search events than the recorder keeps"
 	}
-	return tr.E{"ev": "CanonWB", "g": in.G, "pi": pi, "rep": in.Rep, "evs": evs, "perm": perm, "res": res}
+	return tr.E{"ev": "CanonWB", "g": in.G, "pi": pi, "rep": in.Rep, "evs": evs, "perm": perm, "res": res, "known": known, "order": in.Order}
 }
 
 func (in canonIn) key() string {
@@ -371,6 +388,41 @@ func disjointUnion(a, b gJ) gJ {
 	return gJ{N: a.N + b.N, E: e}
 }
 
+// cycleUnion: the disjoint union of cycles of the given lengths (equal lengths adjacent), generators of its automorphism group
+// (rotation and reflection of every cycle, swap of each adjacent pair of equal cycles) and the order of that group.
+func cycleUnion(lens []int) (u gJ, known [][]int, order int) {
+	n := 0
+	offs := []int{}
+	for _, l := range lens {
+		offs = append(offs, n)
+		u = disjointUnion(u, gJOf(graph.Cycle(l)))
+		n += l
+	}
+	order = 1
+	mult := 1
+	for k, l := range lens {
+		rot, refl := identity(n), identity(n)
+		for i := 0; i < l; i++ {
+			rot[offs[k]+i] = offs[k] + (i+1)%l
+			refl[offs[k]+i] = offs[k] + (l-i)%l
+		}
+		known = append(known, rot, refl)
+		order *= 2 * l
+		if k > 0 && lens[k-1] == l {
+			sw := identity(n)
+			for i := 0; i < l; i++ {
+				sw[offs[k]+i], sw[offs[k-1]+i] = offs[k-1]+i, offs[k]+i
+			}
+			known = append(known, sw)
+			mult++
+			order *= mult
+		} else {
+			mult = 1
+		}
+	}
+	return
+}
+
 func hardGraphs() map[string]gJ {
 	h := map[string]gJ{}
 	put := func(name string, g graph.Graph) { h[name] = gJOf(g) }
@@ -550,6 +602,20 @@ func canonGrid(c *Ctx, prop string) []canonIn {
 		for _, nm := range []string{"G|WW}K", "GhcqSK", "cube3", "2xc4", "k44", "k222", "3xk3", "p4+p4", "rook33"} {
 			for t := 0; t < 6; t++ {
 				add(canonIn{Kind: "wb", Name: nm, G: hard[nm], Pi: r.Perm(hard[nm].N), Rep: "dense"})
+			}
+		}
+		// white box beyond the reach of brute-force Aut(g): unions of cycles and their complements, Aut generated from rotations,
+		// reflections and swaps of equal cycles (order = prod over lengths l with multiplicity m of (2l)^m m!)
+		wbk := [][]int{{3, 4, 4}, {3, 3, 4}}
+		if big {
+			wbk = append(wbk, []int{3, 4, 5, 5}) // the witness of defect 533abb7: |Aut| = 9600, about 4 minutes of TLC per call
+		}
+		for _, lens := range wbk {
+			u, known, order := cycleUnion(lens)
+			co := gJOf(graph.ComplementDense(graphOfJ("dense", u)))
+			for t := 0; t < 2 && (t == 0 || u.N < 15); t++ {
+				add(canonIn{Kind: "wb", Name: "cycles", G: u, Known: known, Order: order, Pi: r.Perm(u.N), Rep: "dense"})
+				add(canonIn{Kind: "wb", Name: "co-cycles", G: co, Known: known, Order: order, Pi: r.Perm(u.N), Rep: "dense"})
 			}
 		}
 		for _, n := range []int{25, 40, 60} { // sizes that reach the merge sort / quicksort paths
